@@ -14,6 +14,9 @@ structure AddInv (a0 : AtomsS) (c0 : Ctx) (s : State) (K : Nat) : Prop where
          ctxCore { c0 with addedIdx := [], addedAtoms := [], addedSizes := [], delta := 0 }
   /-- while no row has been added no particle size has been recorded -/
   sizes0 : K = 0 → s.ctx.addedSizes = c0.addedSizes
+  /-- the recorded sizes account for exactly the added rows, and each recorded particle has atoms -/
+  sizesSum : s.ctx.addedSizes.sum = c0.addedSizes.sum + K
+  sizesPos : ∀ n ∈ s.ctx.addedSizes, n ∈ c0.addedSizes ∨ 0 < n
 
 theorem fixedOK_of_addInv (a0 : AtomsS) (c0 : Ctx) (s : State) (K : Nat) (h : AddInv a0 c0 s K)
     (hfx : FixedOK a0) : FixedOK s.atoms := by
@@ -63,7 +66,7 @@ theorem compExchAddLoop_inv (a0 : AtomsS) (c0 : Ctx) (hfx : FixedOK a0) (rs : Li
     · -- this member's insertion was vetoed: atoms as before
       simp only [hidx, List.isEmpty_nil, if_true]
       apply ih ok _ K _ hok
-      refine ⟨?_, ?_, ?_, ?_, ?_, ?_, ?_⟩
+      refine ⟨?_, ?_, ?_, ?_, ?_, ?_, ?_, ?_, ?_⟩
       · show s1.atoms.cell = a0.cell; rw [hat]; exact h.cell
       · show s1.atoms.fixed = a0.fixed; rw [hat]; exact h.fixed
       · show s1.atoms.rows.take a0.rows.length = a0.rows; rw [hat]; exact h.take
@@ -71,6 +74,8 @@ theorem compExchAddLoop_inv (a0 : AtomsS) (c0 : Ctx) (hfx : FixedOK a0) (rs : Li
       · show s1.ctx.addedIdx = _; rw [hadded1]; exact h.added
       · exact hcore1
       · intro hk; show s1.ctx.addedSizes = _; rw [hsizes1]; exact h.sizes0 hk
+      · show s1.ctx.addedSizes.sum = _; rw [hsizes1]; exact h.sizesSum
+      · show ∀ n ∈ s1.ctx.addedSizes, _; rw [hsizes1]; exact h.sizesPos
     · -- inserted `k` rows
       generalize hnew : toAddOf (s.obj r) s.ctx = new at hidx hd
       by_cases hie : idx.isEmpty = true
@@ -90,17 +95,27 @@ theorem compExchAddLoop_inv (a0 : AtomsS) (c0 : Ctx) (hfx : FixedOK a0) (rs : Li
           intro i
           rw [applyDisp_untouched _ _ _ _ i (by simp [addMoving])]
           simp [AtomsS.extend]
-        refine ⟨?_, ?_, ?_, ?_, ?_, hcore1, ?_⟩
+        refine ⟨?_, ?_, ?_, ?_, ?_, hcore1, ?_, ?_, ?_⟩
         · show s1.atoms.cell = a0.cell; rw [hd]; exact h.cell
         · show s1.atoms.fixed = a0.fixed; rw [hd]; exact h.fixed
         · show s1.atoms.rows.take a0.rows.length = a0.rows; rw [hrows]; exact h.take
         · show s1.atoms.rows.length = a0.rows.length + K; rw [hrows]; exact h.len
         · show s1.ctx.addedIdx = _; rw [hadded1]; exact h.added
         · intro hk; show s1.ctx.addedSizes = _; rw [hsizes1]; exact h.sizes0 hk
+        · show s1.ctx.addedSizes.sum = _; rw [hsizes1]; exact h.sizesSum
+        · show ∀ n ∈ s1.ctx.addedSizes, _; rw [hsizes1]; exact h.sizesPos
       · have hie' : idx.isEmpty = false := by simpa using hie
         simp only [hie', Bool.false_eq_true, if_false]
         apply ih true _ (K + new.length) _ (fun hx => by cases hx)
-        refine ⟨?_, ?_, ?_, ?_, ?_, ?_, ?_⟩
+        have hnewpos : 0 < new.length := by
+          have hl := congrArg List.length hidx
+          simp only [addMoving, List.length_map, List.length_range] at hl
+          cases idx with
+          | nil => simp at hie
+          | cons _ _ => simp at hl; omega
+        have hidxlen : idx.length = new.length := by
+          rw [hidx]; simp [addMoving]
+        refine ⟨?_, ?_, ?_, ?_, ?_, ?_, ?_, ?_, ?_⟩
         · show s1.atoms.cell = a0.cell; rw [hd]; exact h.cell
         · show s1.atoms.fixed = a0.fixed; rw [hd]; exact h.fixed
         · show s1.atoms.rows.take a0.rows.length = a0.rows
@@ -126,13 +141,16 @@ theorem compExchAddLoop_inv (a0 : AtomsS) (c0 : Ctx) (hfx : FixedOK a0) (rs : Li
           simp [recordAdded, ctxCore]
         · intro hk
           exfalso
-          have : 0 < new.length := by
-            have hl := congrArg List.length hidx
-            simp only [addMoving, List.length_map, List.length_range] at hl
-            cases idx with
-            | nil => simp at hie
-            | cons _ _ => simp at hl; omega
           omega
+        · show (recordAdded s1.ctx idx s1.atoms.rows).addedSizes.sum = _
+          simp only [recordAdded, hsizes1, List.sum_append, List.sum_cons, List.sum_nil, hidxlen, h.sizesSum]
+          omega
+        · show ∀ n ∈ (recordAdded s1.ctx idx s1.atoms.rows).addedSizes, _
+          intro n hn
+          simp only [recordAdded, hsizes1, List.mem_append, List.mem_singleton] at hn
+          rcases hn with hn | hn
+          · exact h.sizesPos n hn
+          · right; rw [hn, hidxlen]; exact hnewpos
 
 end MM
 
@@ -180,7 +198,7 @@ theorem compExch_insertion_not_accepted_restores (sim : Sim) (he : sim.ens = .gr
     (s : State) (hinv : InvG s) (hadd : s.inp.draw.1 < b) :
     (trial sim (.compExch rs b) false s).2.atoms = s.atoms := by
   have h0 : AddInv s.atoms s.ctx ({ s with inp := s.inp.draw.2 } : State) 0 := by
-    refine ⟨rfl, rfl, ?_, by simp, ?_, rfl, fun _ => rfl⟩
+    refine ⟨rfl, rfl, ?_, by simp, ?_, rfl, fun _ => rfl, by simp, fun n hn => .inl hn⟩
     · simp
     · simpa using hinv.noAdded
   obtain ⟨K', hK, hzero⟩ := compExchAddLoop_inv s.atoms s.ctx hinv.fixedOK rs false _ 0 h0 (fun _ => rfl)
